@@ -173,7 +173,25 @@ var (
 	journalFile  *os.File
 	caseStart    atomic.Int64 // unix nanos of the running library call, 0 = none
 	caseDeadline = 10 * time.Second
+	// enumerators that make millions of tiny library calls do not journal each one: they publish the current input
+	// through SetCurrent and the watchdog aborts when the input has not changed for the deadline
+	currentInput atomic.Pointer[currentCase]
 )
+
+type currentCase struct {
+	property, kind string
+	mk             func() interface{}
+	since          int64
+}
+
+// SetCurrent publishes the input an enumerator is about to hand to the library (nil = none).
+func SetCurrent(property, kind string, mk func() interface{}) {
+	if mk == nil {
+		currentInput.Store(nil)
+		return
+	}
+	currentInput.Store(&currentCase{property, kind, mk, time.Now().UnixNano()})
+}
 
 // Envelope is what journal, pending-failure and replay files contain.
 type Envelope struct {
@@ -200,6 +218,10 @@ func Setup() {
 	go func() {
 		for {
 			time.Sleep(250 * time.Millisecond)
+			if cur := currentInput.Load(); cur != nil && time.Since(time.Unix(0, cur.since)) > caseDeadline {
+				Begin(cur.property, cur.kind, cur.mk()) // journal the stuck input
+				caseStart.Store(cur.since)
+			}
 			st := caseStart.Load()
 			if st != 0 && time.Since(time.Unix(0, st)) > caseDeadline {
 				if p := os.Getenv("VERIF_JOURNAL"); p != "" {
